@@ -146,6 +146,7 @@ type seqRun struct {
 	strictAttrs                                                        bool // compare reply attributes with the backend (sequential, fault-free runs)
 	faulty                                                             bool
 	inj0                                                               int  // backend fault rules fired before the current operation
+	stall0                                                             int  // backend stall rules fired before the current operation
 	lastOK                                                             bool // status of the current operation's reply
 	lastWrite                                                          *Op  // the WRITE/SETATTR(size) of the current operation (faulted-operation oracle)
 	nWriteEOF, nTrunc, nRead, nNegPos, nReaddirAfterMut, nRenameLooked int
@@ -215,7 +216,9 @@ func (r *seqRun) vio(oracle, facts, format string, a ...any) { r.o.Vio(oracle, f
 // current operation. Only such an operation is judged by the relaxed clause ("it may fail, or leave a
 // prefix of its own payload; it may never report success for something that did not happen"); every
 // other operation of the same run - in particular every later one - is judged exactly.
-func (r *seqRun) faulted() bool { return r.faulty && r.w.FS.Injected() != r.inj0 }
+func (r *seqRun) faulted() bool {
+	return r.faulty && (r.w.FS.Injected() != r.inj0 || r.w.FS.Stalled() != r.stall0)
+}
 
 func (r *seqRun) addHandle(fh []byte, p string) {
 	if len(fh) == 0 {
